@@ -11,6 +11,8 @@ CLAIMED = {
  'C01': 'Theorems (Properties/C01.v): after EVERY history of the L3 storage model (writes/deletes with arbitrary timestamps, lifecycle and background requests, restarts, index removal; any key length and config) read/contains = top-ranked record of the log (greatest timestamp, then newest blob, then newest append), unless the known class F2 was hit (ghost flag; refutation witness included). Model = code by differential runs: every read/contains after every op on generated histories, compared with the model AND with the Coq spec.',
  'C04': 'Theorems (Properties/C04.v): every non-data operation (lifecycle, background requests in any state, force_update, free_excess, dumps at quiescence, close/drop/open, index removal) leaves the log untouched after every history, hence reads unchanged; invariant kept by every operation; "keeps accepting writes" is refuted by the faithful model (F2 witness by vm_compute). Correspondence: maintenance op between data ops with p=1/2, all queries after every op.',
  'C05': 'Theorems (Properties/C05.v): bytes appended = header++meta++data with offset/CRC patched, independent of the single-pass threshold; Entry::load round trip for every key/meta/data length; header codec round trip; CRC-32C detects every error burst of <= 32 bits at every position and length (proved from scratch on the bit-serial model), byte-level corollaries; data with a different checksum is never returned. Correspondence: blob files byte-exact (incl. CRCs, thresholds 4096/81920), reads after 1-bit/1-byte/burst damage with index in memory, on disk, regenerated; debug and release builds.',
+ 'C02': 'Theorems (Properties/C02.v): for every state whose indexes describe their blobs (established after every history), read_all_with_deletion_marker = all records of the key in rank order cut after the first marker (the per-blob cut + stable re-sort + global cut of the code is proved equal to one global sort and cut, any number of blobs); read_all = that without the marker; read_with(meta) = first listed record with that meta, else Deleted if the list ends in a marker, else NotFound (per-blob lookup merged by latest proved equal to the global lookup). delete return values and duplicate-write acknowledgements are tied by correspondence with the model (both policies).',
+ 'C09': 'PARTIAL. Model of the B+tree serializer and reader (Index/BPTree.v: leaf packing, node layering with byte offsets, descent, in-leaf search, left/right expansion, load) tied to the crate by byte-exact comparison of index files and of every lookup (hook H2) over shapes up to 3 node levels for K in {1,4,32,250,1000}; theorem so far: bounded sweep proved by kernel computation (all key counts 1..120, three version distributions, small block size exercising deep trees). The unbounded equivalence theorem is in progress (DESIGN.md C09).',
  'C10': 'Theorems (Properties/C10.v) over the model of AtomicBitVec/Bloom: no false negative for every hash family, bit count and key sequence; off-loaded file probe = in-memory probe through the bincode layout; merge keeps keys. The bit-index functions the proofs unfold are regenerated from the Rust source on every run; the rest is tied by byte-exact differential runs (Bloom::to_raw with the aHash model, probes).',
 }
 def chk(pid):
